@@ -128,6 +128,24 @@ impl MapOp {
             _ => C01,
         }
     }
+    /// Properties whose statements cover this operation: its own, plus the cross-cutting ones
+    /// (ownership, full-container behaviour, invariants, no-heap, key identity) for every *safe*
+    /// operation. `insert_unchecked` is the business of C18 alone, which demands all of those
+    /// guarantees of it within its contract. An engine run restricted to other properties neither
+    /// judges nor (unless it is needed to reach states) executes the operation, so that a defect
+    /// confined to one entry point is attributed to the properties that speak about it.
+    pub fn relevant(&self) -> PMask {
+        const CROSS: PMask = C02 | C03 | C05 | C06 | C12;
+        match self {
+            MapOp::InsertUnchecked { .. } => C18,
+            _ => self.base_props() | CROSS,
+        }
+    }
+    /// Operations of the generating alphabet: needed to reach every state, so they are always
+    /// executed (quietly when no enabled property covers them).
+    pub fn generating(&self) -> bool {
+        matches!(self, MapOp::Insert { .. } | MapOp::InsertKV { .. } | MapOp::Remove { f: Form::Key, .. })
+    }
     pub fn is_insertion(&self) -> bool {
         matches!(
             self,
@@ -280,18 +298,28 @@ pub fn alphabet<K: KeyT, V: ValT>(n: usize, nk: u8, nv: u8, which: Alpha) -> Vec
 pub struct RefMap {
     pub cap: usize,
     pub m: BTreeMap<u8, (KD, VD)>,
+    /// entries whose key is not equal to itself (non-reflexive key mode): never found by any
+    /// lookup, never replaced, each occupies a slot until retain/clear/drain takes it out
+    pub nans: Vec<(KD, VD)>,
+}
+
+fn is_nan(k: u8) -> bool {
+    pl::nan_code() == Some(k)
 }
 
 impl RefMap {
     pub fn new(cap: usize) -> Self {
-        RefMap { cap, m: BTreeMap::new() }
+        RefMap { cap, m: BTreeMap::new(), nans: Vec::new() }
     }
     pub fn entries(&self) -> Vec<(KD, VD)> {
-        self.m.values().copied().collect()
+        self.m.values().chain(self.nans.iter()).copied().collect()
+    }
+    pub fn total(&self) -> usize {
+        self.m.len() + self.nans.len()
     }
     pub fn stored_ids(&self) -> Vec<u32> {
         let mut v = Vec::new();
-        for (k, x) in self.m.values() {
+        for (k, x) in self.m.values().chain(self.nans.iter()) {
             if k.id != NOID {
                 v.push(k.id);
             }
@@ -302,7 +330,18 @@ impl RefMap {
         v
     }
     pub fn full(&self) -> bool {
-        self.m.len() >= self.cap
+        self.total() >= self.cap
+    }
+    /// an insertion of a key that is not equal to itself: always a new entry
+    fn insert_nan(&mut self, kd: KD, vd: VD) -> ModelOut {
+        if self.full() {
+            let mut o = ModelOut::exact(vec![F::Panic]);
+            o.overflow = true;
+            o
+        } else {
+            self.nans.push((kd, vd));
+            ModelOut::exact(vec![F::None])
+        }
     }
 }
 
@@ -376,13 +415,27 @@ pub struct ArgD {
 }
 
 pub fn applicable(model: &RefMap, op: &MapOp) -> bool {
+    // a key that is not equal to itself has no lawful borrowed form: it is only looked up as a key
+    if let MapOp::Remove { k, f: Form::Q }
+    | MapOp::RemoveEntry { k, f: Form::Q }
+    | MapOp::Get { k, f: Form::Q }
+    | MapOp::GetMutWrite { k, f: Form::Q, .. }
+    | MapOp::GetKeyValue { k, f: Form::Q }
+    | MapOp::ContainsKey { k, f: Form::Q }
+    | MapOp::Index { k, f: Form::Q }
+    | MapOp::IndexMutWrite { k, f: Form::Q, .. } = *op
+    {
+        if is_nan(k) {
+            return false;
+        }
+    }
     match *op {
         MapOp::InsertUnchecked { k, .. } => !model.full() || model.m.contains_key(&k),
         MapOp::Entry { k, chain, .. } => {
             let present = model.m.contains_key(&k);
             !(chain.occupied_only() && !present) && !(chain.vacant_only() && present)
         }
-        MapOp::Drain { take, .. } => (take as usize) <= model.m.len() + 1,
+        MapOp::Drain { take, .. } => (take as usize) <= model.total() + 1,
         _ => true,
     }
 }
@@ -395,6 +448,60 @@ fn opt_v(x: Option<VD>) -> Ret {
 }
 
 pub fn exec_model(model: &mut RefMap, op: &MapOp, a: &ArgD, nv: u8) -> ModelOut {
+    // non-reflexive key: every insertion path appends (or is refused when full)
+    match *op {
+        MapOp::Insert { k, .. } | MapOp::InsertUnchecked { k, .. } | MapOp::InsertKV { k, .. } if is_nan(k) => {
+            return model.insert_nan(a.kd.unwrap(), a.vd.unwrap());
+        }
+        MapOp::CheckedInsert { k, .. } if is_nan(k) => {
+            return if model.full() {
+                let mut o = ModelOut::exact(vec![F::None]);
+                o.overflow = true;
+                o
+            } else {
+                model.nans.push((a.kd.unwrap(), a.vd.unwrap()));
+                ModelOut::exact(vec![F::B(true), F::None])
+            };
+        }
+        MapOp::Entry { k, chain, .. } if is_nan(k) => {
+            let kd = a.kd.unwrap();
+            let full = model.full();
+            let ins = |model: &mut RefMap, vd: VD, ret: Ret| {
+                if full {
+                    let mut o = ModelOut::exact(vec![F::Panic]);
+                    o.overflow = true;
+                    o
+                } else {
+                    model.nans.push((kd, vd));
+                    ModelOut::exact(ret)
+                }
+            };
+            return match chain {
+                EChain::Key | EChain::VKey | EChain::VIntoKey => ModelOut::exact(vec![F::B(false), F::K(kd)]),
+                EChain::OrInsert | EChain::OrInsertWith | EChain::OrInsertWithKey => {
+                    let vd = a.vd.unwrap();
+                    let mut o = ins(model, vd, vec![F::V(vd)]);
+                    if chain != EChain::OrInsert {
+                        o.calls = Some(1);
+                    }
+                    o
+                }
+                EChain::OrDefault => ins(model, a.default_vd, vec![F::V(a.default_vd)]),
+                EChain::AndModifyOrInsert => {
+                    let v2 = a.v2d.unwrap();
+                    let mut o = ins(model, v2, vec![F::V(v2)]);
+                    o.calls = Some(0);
+                    o
+                }
+                EChain::VInsert => {
+                    let vd = a.vd.unwrap();
+                    ins(model, vd, vec![F::B(false), F::V(vd)])
+                }
+                _ => ModelOut::exact(vec![F::B(false)]),
+            };
+        }
+        _ => {}
+    }
     match *op {
         MapOp::Insert { k, .. } | MapOp::InsertUnchecked { k, .. } => {
             let vd = a.vd.unwrap();
@@ -490,8 +597,9 @@ pub fn exec_model(model: &mut RefMap, op: &MapOp, a: &ArgD, nv: u8) -> ModelOut 
         MapOp::Retain { keep, mutate } => {
             let from = model.entries();
             model.m.retain(|k, _| keep & (1 << k) != 0);
+            model.nans.retain(|(k, _)| keep & (1 << k.k) != 0);
             if mutate {
-                for e in model.m.values_mut() {
+                for e in model.m.values_mut().chain(model.nans.iter_mut()) {
                     e.1.v = (e.1.v + 1) % nv;
                 }
             }
@@ -500,6 +608,7 @@ pub fn exec_model(model: &mut RefMap, op: &MapOp, a: &ArgD, nv: u8) -> ModelOut 
         }
         MapOp::Clear => {
             model.m.clear();
+            model.nans.clear();
             ModelOut::exact(vec![])
         }
         MapOp::Drain { take, forget } => {
@@ -507,6 +616,7 @@ pub fn exec_model(model: &mut RefMap, op: &MapOp, a: &ArgD, nv: u8) -> ModelOut 
             let count = (take as usize).min(from.len());
             let leak_ok = if forget { model.stored_ids() } else { Vec::new() };
             model.m.clear();
+            model.nans.clear();
             let mut o = ModelOut::exact(vec![]);
             o.ret = RetSpec::SomeEntries { count, from };
             o.leak_ok = leak_ok;
@@ -514,7 +624,7 @@ pub fn exec_model(model: &mut RefMap, op: &MapOp, a: &ArgD, nv: u8) -> ModelOut 
         }
         MapOp::IterMutWrite { v } => {
             let from = model.entries();
-            for e in model.m.values_mut() {
+            for e in model.m.values_mut().chain(model.nans.iter_mut()) {
                 e.1.v = v;
             }
             let mut o = ModelOut::exact(vec![]);
@@ -523,7 +633,7 @@ pub fn exec_model(model: &mut RefMap, op: &MapOp, a: &ArgD, nv: u8) -> ModelOut 
         }
         MapOp::ValuesMutWrite { v } => {
             let from = model.entries();
-            for e in model.m.values_mut() {
+            for e in model.m.values_mut().chain(model.nans.iter_mut()) {
                 e.1.v = v;
             }
             let mut o = ModelOut::exact(vec![]);
@@ -947,7 +1057,8 @@ fn exec_entry<K: KeyT, V: ValT, const N: usize>(
             let addr: usize = $addr;
             s.refs.push((addr, std::mem::size_of::<V>()));
             let again = m.get_mut::<K>(&probe).map(|r| r as *mut V as usize);
-            if again != Some(addr) {
+            // (a key that is not equal to itself cannot be looked up again)
+            if again != Some(addr) && !is_nan(supplied.k) {
                 s.fails.push((
                     C11,
                     format!("entry method returned a reference at {addr:#x} but get_mut gives {again:x?}"),
@@ -1168,7 +1279,7 @@ pub fn invariants<K: KeyT, V: ValT, const N: usize>(m: &Map<K, V, N>, cx: &mut C
     for (i, (k, _)) in items.iter().enumerate() {
         n += 1;
         for (k2, _) in &items[..i] {
-            if k.kd().k == k2.kd().k {
+            if k.kd().k == k2.kd().k && !is_nan(k.kd().k) {
                 cx.violate(pm, format!("iteration yields two equal keys {} and {}", k.kd(), k2.kd()));
             }
         }
@@ -1180,6 +1291,17 @@ pub fn invariants<K: KeyT, V: ValT, const N: usize>(m: &Map<K, V, N>, cx: &mut C
     cx.check(pm | C03, m.capacity() == N, || format!("capacity() is {} for N = {N}", m.capacity()));
     cx.check(pm | C03, len <= N, || format!("len() {len} exceeds capacity {N}"));
     for (k, v) in &items {
+        if is_nan(k.kd().k) {
+            // a stored key that is not equal to itself is absent for every lookup, also when the
+            // probe is the stored key object itself
+            let found = m.get::<K>(k).is_some() || m.get_key_value::<K>(k).is_some() || m.contains_key::<K>(k);
+            cx.check(C01, !found, || format!("key {} is not equal to itself, yet a lookup through the stored key object finds it", k.kd()));
+            let idx = std::panic::catch_unwind(std::panic::AssertUnwindSafe(|| {
+                let _ = <Map<K, V, N> as std::ops::Index<&K>>::index(m, k);
+            }));
+            cx.check(C01, idx.is_err(), || format!("indexing with the stored key object {} (not equal to itself) did not panic", k.kd()));
+            continue;
+        }
         let got = m.get::<K>(k).map(|x| x as *const V);
         cx.check(pm, got == Some(*v as *const V), || {
             format!("key {} yielded by iter() does not look up to the value yielded with it", k.kd())
@@ -1254,7 +1376,7 @@ pub fn observe<K: KeyT, V: ValT, const N: usize>(
                 format!("get(k{k}) returned a reference outside the container value")
             });
         }
-        if K::DISTINCT_Q {
+        if K::DISTINCT_Q && !is_nan(k) {
             let g2 = K::with_q(k, |q| m.get(q).map(|v| v.vd()));
             ok &= cx.check(sem, g2 == g1, || {
                 format!("lookup of k{k} through the borrowed form gives {g2:?}, through the key {g1:?}")
@@ -1349,6 +1471,32 @@ thread_local! {
 }
 pub fn set_also_live(ids: Vec<u32>) {
     ALSO_LIVE.with(|a| *a.borrow_mut() = ids);
+}
+
+/// Stale-slot variant of state building (engine flag `--stale`): after replaying the history,
+/// the container is filled to capacity with a filler key outside the universe and the fillers
+/// are removed again, so that every dead slot `[len, N)` holds a stale byte copy of a destroyed
+/// element instead of never-written memory. The observable state (and the model) is unchanged.
+pub static STALE: std::sync::atomic::AtomicBool = std::sync::atomic::AtomicBool::new(false);
+/// Fill the free slots with filler keys outside the universe (codes nk..K::MAXCODE), then remove
+/// them last-in-first-out (pure pops: the live prefix is not disturbed).
+pub fn make_stale<K: KeyT, V: ValT, const N: usize>(m: &mut Map<K, V, N>, nk: u8) {
+    let free = N - m.len().min(N);
+    let codes: Vec<u8> = (nk..K::MAXCODE).take(free).collect();
+    for c in &codes {
+        m.insert(K::mk(*c, 0), V::mk(0));
+    }
+    for c in codes.iter().rev() {
+        K::with_q(*c, |q| {
+            m.remove(q);
+        });
+    }
+}
+pub fn set_stale(on: bool) {
+    STALE.store(on, std::sync::atomic::Ordering::Relaxed);
+}
+pub fn stale() -> bool {
+    STALE.load(std::sync::atomic::Ordering::Relaxed)
 }
 
 pub struct MapSys<K, V, const N: usize> {
@@ -1455,15 +1603,29 @@ impl<K: KeyT, V: ValT, const N: usize> MapSys<K, V, N> {
             }
             RetSpec::SomeEntries { count, from } => {
                 let items: Vec<(KD, VD)> = side.items.iter().map(|(k, v)| (k.unwrap(), *v)).collect();
-                let mut sorted = items.clone();
-                sorted.sort();
-                sorted.dedup();
-                let all_from = items.iter().all(|x| from.contains(x));
-                let good = !panicked && items.len() == *count && sorted.len() == items.len() && all_from;
-                consistent &= good;
-                cx.check(pm | C02, good, || {
-                    format!("yielded {} but should yield {count} distinct entries of {}", render(&items), render(from))
-                });
+                // semantics (key and value codes) first; object identity is a separate matter (C12 / C02)
+                let code = |x: &(KD, VD)| (x.0.k, x.1.v);
+                // the yielded entries must be a sub-multiset of the stored ones (by key and value code)
+                let mut pool: Vec<(u8, u8)> = from.iter().map(code).collect();
+                let mut sub = true;
+                for x in &items {
+                    match pool.iter().position(|p| *p == code(x)) {
+                        Some(i) => {
+                            pool.swap_remove(i);
+                        }
+                        None => sub = false,
+                    }
+                }
+                let sem = !panicked && items.len() == *count && sub;
+                consistent &= sem;
+                cx.check(pm, sem, || format!("yielded {} but should yield {count} distinct entries of {}", render(&items), render(from)));
+                if sem {
+                    let ident = items.iter().all(|x| from.contains(x));
+                    consistent &= ident;
+                    cx.check(C12 | C02 | (pm & !C01), ident, || {
+                        format!("yielded the objects {} but the stored objects are {}", render(&items), render(from))
+                    });
+                }
             }
             RetSpec::AllEntries { from, keys } => {
                 let mut got_items: Vec<(Option<KD>, VD)> = side.items.clone();
@@ -1471,9 +1633,19 @@ impl<K: KeyT, V: ValT, const N: usize> MapSys<K, V, N> {
                 let mut want_items: Vec<(Option<KD>, VD)> =
                     from.iter().map(|(k, v)| (if *keys { Some(*k) } else { None }, *v)).collect();
                 want_items.sort();
-                let good = !panicked && got_items == want_items;
-                consistent &= good;
-                cx.check(pm, good, || format!("visited {got_items:?} but the stored entries are {want_items:?}"));
+                let codes = |x: &[(Option<KD>, VD)]| {
+                    let mut c: Vec<(Option<u8>, u8)> = x.iter().map(|(k, v)| (k.map(|k| k.k), v.v)).collect();
+                    c.sort();
+                    c
+                };
+                let sem = !panicked && codes(&got_items) == codes(&want_items);
+                consistent &= sem;
+                cx.check(pm, sem, || format!("visited {got_items:?} but the stored entries are {want_items:?}"));
+                if sem {
+                    let ident = got_items == want_items;
+                    consistent &= ident;
+                    cx.check(C12 | C02 | (pm & !(C01 | C09)), ident, || format!("visited the objects {got_items:?} but the stored objects are {want_items:?}"));
+                }
             }
         }
         if let Some(c) = mo.calls {
@@ -1523,7 +1695,7 @@ impl<K: KeyT, V: ValT, const N: usize> MapSys<K, V, N> {
         leaked.extend(mo.leak_ok.iter().copied());
         // 6. everything observable vs the model; 7. invariants on the very object
         consistent &= observe(&bx.c, model, probes, cx, pm, range);
-        invariants(&bx.c, cx, if panicked { pm & C03 } else { 0 });
+        invariants(&bx.c, cx, (if panicked { pm & C03 } else { 0 }) | (pm & C18));
         if ledger {
             consistent &= flush_ledger(cx, C02 | (pm & !C01), "observing the container afterwards");
         }
@@ -1594,6 +1766,9 @@ impl<K: KeyT, V: ValT, const N: usize> MapSys<K, V, N> {
             }
             self.step(&mut bx, &mut model, &probes, &op, cx, &mut leaked);
         }
+        if stale() {
+            make_stale::<K, V, N>(&mut bx.c, self.nk);
+        }
         cx.quiet = was;
         Built { bx, model, probes, leaked }
     }
@@ -1642,14 +1817,37 @@ impl<K: KeyT, V: ValT, const N: usize> Sys for MapSys<K, V, N> {
         let before = snapshot(&b.bx.c);
         let mut after = None;
         let mut explore = false;
-        if let Some(oi) = op {
+        // History mode replays the prefix without judging it. If the prefix has already driven the
+        // container away from the model, the culprit is the last operation of a *shorter* history,
+        // which is enumerated and judged on its own: blaming this history's last operation would
+        // attribute the deviation to the wrong property.
+        let mut diverged = false;
+        if self.alpha == Alpha::Hist && op.is_some() {
+            let mut real = entries_of(&b.bx.c);
+            real.sort();
+            let mut want = b.model.entries();
+            want.sort();
+            if real != want || pl::violation_count() > 0 {
+                diverged = true;
+                pl::take_violations();
+                cx.class("history: prefix diverged from the model (judged at the shorter history)");
+            }
+        }
+        if let Some(oi) = op.filter(|_| !diverged) {
             let o = self.ops[oi as usize];
-            if applicable(&b.model, &o) {
+            let judged = o.relevant() & cx.enabled != 0;
+            if applicable(&b.model, &o) && (judged || o.generating()) {
+                let was_quiet = cx.quiet;
+                if !judged {
+                    cx.quiet = true;
+                }
                 cx.here.op = o.to_string();
                 cx.here.extra.clear();
                 crumb(&cx.here.op);
-                cx.evaluations += 1;
-                let pre_len = b.model.m.len();
+                if judged {
+                    cx.evaluations += 1;
+                }
+                let pre_len = b.model.total();
                 let out = self.step(&mut b.bx, &mut b.model, &b.probes, &o, cx, &mut b.leaked);
                 after = Some(snapshot(&b.bx.c));
                 explore = out.consistent;
@@ -1657,7 +1855,7 @@ impl<K: KeyT, V: ValT, const N: usize> Sys for MapSys<K, V, N> {
                     let pm = if pre_len >= N && o.is_insertion() { C03 } else { o.base_props() };
                     self.exercise(&mut b.bx, &mut b.model, &b.probes, cx, &mut b.leaked, pm);
                 }
-                if pre_len > 0 || after != Some(before) {
+                if judged && (pre_len > 0 || after != Some(before)) {
                     cx.nontrivial += 1;
                 }
                 if pre_len == 0 {
@@ -1673,10 +1871,17 @@ impl<K: KeyT, V: ValT, const N: usize> Sys for MapSys<K, V, N> {
                         .set("state_before", before.render())
                         .set("state_after", after.unwrap().render())
                 });
+                cx.quiet = was_quiet;
             }
         }
-        let pm = C02;
-        self.teardown(b, cx, pm);
+        if diverged {
+            let mut q = Ctx::new(0);
+            q.quiet = true;
+            self.teardown(b, &mut q, 0);
+            pl::take_violations();
+        } else {
+            self.teardown(b, cx, C02);
+        }
         RunOut { before, after, explore }
     }
 }
